@@ -244,7 +244,9 @@ def build_world(case, cache=True, rev=False, debug=False):
     def visit(path):
         here = [i for i in range(n) if grp[i] == path]
         kids = sorted({g[:len(path) + 1] for g in grp if len(g) > len(path) and g[:len(path)] == path})
-        if rev:
+        if isinstance(rev, (list, tuple)):
+            here = sorted(here, key=lambda i: list(rev).index(i))      # an explicit start order (a permutation of the simulators)
+        elif rev:
             here = here[::-1]; kids = kids[::-1]
         for i in here: start(i)
         for kpath in kids:
